@@ -55,6 +55,8 @@ type traceCache struct {
 	reads map[int]*jobReads
 	// onShared is called when Set hands a job the result of ANOTHER call's fetch
 	onShared func(job int, scheme auth.Scheme, tok string)
+	// onSharedErr: Set hands a job the ERROR of another call's fetch
+	onSharedErr func(job int)
 }
 
 type jobReads struct {
@@ -164,6 +166,15 @@ func (t *traceCache) Set(ctx context.Context, registry string, scheme auth.Schem
 	})
 	if err != nil {
 		t.add(setLog{kind: 'E', call: id, err: err})
+		t.mu.Lock()
+		own := true
+		if r := t.job(ctx); r != nil {
+			own = r.fetched
+		}
+		t.mu.Unlock()
+		if jb, ok := ctx.Value(jobKey{}).(int); ok && !own && !isCancel(err) && t.onSharedErr != nil {
+			t.onSharedErr(jb)
+		}
 	} else {
 		t.add(setLog{kind: 'R', call: id, val: tok})
 		t.mu.Lock()
